@@ -361,8 +361,15 @@ def symplectic_case(rs, n, kind):
         r[-1] = 0.0
     elif kind == "signs":
         r = r * rs.choice([1.0, -1.0], n)
-    elif kind == "near_passive":
-        r = r * 1e-4
+    elif kind == "near_passive":               # boundary of the passive test |S^T S - 1| < tol
+        r = r * 10.0 ** (-rs.uniform(2, 5))
+    elif kind == "close_distinct":             # squeezing values that differ by 1e-2..1e-4: distinct, not degenerate
+        r = r[0] + np.arange(n) * 10.0 ** (-rs.uniform(2, 4))
+    elif kind == "close_pairs" and n >= 2:     # equal and close-but-distinct values side by side
+        d = 10.0 ** (-rs.uniform(2, 4))
+        r = np.array([r[0] + (k // 2) * d for k in range(n)])
+    elif kind == "close_to_unit" and n >= 2:   # weakly squeezed modes next to unsqueezed ones
+        r = np.array([0.0 if k % 2 else (k // 2 + 1) * 10.0 ** (-rs.uniform(2, 4)) for k in range(n)])
     O1 = interferometer_symplectic(haar(rs, n)) if kind != "diag" else np.identity(2 * n)
     O2 = interferometer_symplectic(haar(rs, n)) if kind not in ("diag", "left_only") else np.identity(2 * n)
     if kind == "perm_passive":
@@ -373,7 +380,7 @@ def symplectic_case(rs, n, kind):
 
 
 SYMPLECTIC_KINDS = ["generic", "passive", "identity", "degenerate", "pairs", "partial", "one_unsqueezed", "signs",
-                    "near_passive", "diag", "left_only", "perm_passive"]
+                    "near_passive", "diag", "left_only", "perm_passive", "close_distinct", "close_pairs", "close_to_unit"]
 
 
 def cov_case(rs, n, kind):
@@ -479,9 +486,18 @@ def symmetric_case(rs, n, kind):
         U = haar(rs, n)
         s = np.sort(rs.choice([0.5, 1.0, 2.0], n))[::-1]
         return -(U @ np.diag(s) @ U.T)
-    if kind == "scaled_small":
+    if kind == "scaled_small":                 # boundary of the np.allclose(N, 0) shortcut
         A = rs.standard_normal((n, n)) + 1j * rs.standard_normal((n, n))
-        return (A + A.T) * 1e-4
+        return (A + A.T) * 10.0 ** (-rs.uniform(2, 7))
+    if kind == "scaled_small_r":
+        A = rs.standard_normal((n, n))
+        return (A + A.T) * 10.0 ** (-rs.uniform(2, 7))
+    if kind == "gap_sweep":                    # two singular values closer than the SVD can separate, any gap 1e-5..1e-15
+        U = haar(rs, n)
+        s = np.sort(rs.uniform(0.5, 2, n))[::-1]
+        if n >= 2:
+            s[1] = s[0] * (1 - 10.0 ** (-rs.uniform(5, 15)))
+        return U @ np.diag(s) @ U.T
     if kind == "scaled_big":
         A = rs.standard_normal((n, n)) + 1j * rs.standard_normal((n, n))
         return (A + A.T) * 1e3
@@ -491,7 +507,7 @@ def symmetric_case(rs, n, kind):
 SYMMETRIC_KINDS = ["complex", "real", "real_as_complex", "zero", "identity", "imag", "adjacency", "adjacency_c",
                    "complete", "unitary_sym", "degenerate_c", "degenerate_r", "rank_deficient", "rank_deficient_r",
                    "diag_c", "near_degenerate", "block_c", "tiny_imag", "scaled_small", "scaled_big", "phase_real",
-                   "neg_degenerate"]
+                   "neg_degenerate", "scaled_small_r", "gap_sweep"]
 
 
 def to_json_matrix(A):
